@@ -24,6 +24,9 @@ type c17Params struct {
 	BufSize  int   `json:"buf_size"`  // ring size of the instrumented build (small variant: 4, native: 16)
 	Doubles  int   `json:"doubles"`   // table doublings applied after the prefill (reachable through contention; see VerifDouble)
 	Doublers int   `json:"doublers"`  // threads that double the table once during the run (the expansion step of a contended Add, under the busy flag)
+	// after the run (quiescent), one native Add for every token index below 2*MaxLen: whatever table the contended
+	// phase left behind (expanded by the code's own expansion step), every stripe it maps to must be drainable
+	PostTokens bool `json:"post_tokens,omitempty"`
 }
 
 func init() {
@@ -140,6 +143,21 @@ func c17Body(x *Exec, raw json.RawMessage) {
 	}
 	if bs := lossy.VerifBufferSize(); bs != p.BufSize {
 		x.Fail("infra", "buffer-size", "instrumented build has ring size %d, scenario expects %d", bs, p.BufSize)
+	}
+	if p.PostTokens {
+		for idx := 2*p.MaxLen - 1; idx >= 0; idx-- { // high token bits first: they only matter while the table is short
+			idx := idx
+			vdet.RandFn = func() uint32 { return uint32(idx) }
+			id++
+			n := nm.Create(id, id, 0, 0, 1)
+			if st := s.Add(n); st == lossy.Success {
+				success[id]++
+				x.Count("post-success")
+			}
+		}
+		if l := s.Len(); l > capacity {
+			x.Fail("over-capacity", "Len", "Len() = %d exceeds the fixed capacity %d after the quiescent adds", l, capacity)
+		}
 	}
 	// quiescent: a final drain must deliver every recorded entry exactly once in total
 	if l := s.Len(); l > capacity {
